@@ -101,6 +101,26 @@ def gen():
     ]:
         need(pat, F.fn_body(mod, fn, MOD), "%s: %s" % (MOD, what))
 
+    # ---- character-level accessors of the built buffer (Model/Buffer.v, last section)
+    for fn, pat, what in [
+        ("curr_slice_c", r"let\s+start\s*=\s*self\.mod_c2b\[data\.start\];\s*let\s+end\s*=\s*self\.mod_c2b\[data\.end\];\s*&self\.modified\[start\.\.end\]", "curr_slice_c = modified[mod_c2b[start]..mod_c2b[end]]"),
+        ("orig_slice_c", r"let\s+start\s*=\s*self\.to_orig_byte_idx\(data\.start\);\s*let\s+end\s*=\s*self\.to_orig_byte_idx\(data\.end\);\s*&self\.original\[start\.\.end\]", "orig_slice_c = original[to_orig_byte_idx(start)..to_orig_byte_idx(end)]"),
+        ("curr_slice", r"&self\.modified\[range\]", "curr_slice = modified[range]"),
+        ("can_bow", r"self\.mod_bow\[offset\]", "can_bow = mod_bow[offset]"),
+        ("cat_at_char", r"self\.mod_cat\[offset\]", "cat_at_char = mod_cat[offset]"),
+        ("cat_of_range", r"if\s+range\.is_empty\(\)\s*\{\s*return\s+CategoryType::empty\(\);\s*\}\s*self\.mod_cat\[range\]\s*\.iter\(\)\s*\.fold\(CategoryType::all\(\),\s*\|a,\s*b\|\s*a\s*&\s*\*b\)", "cat_of_range = fold(all(), &) over mod_cat[range], empty for an empty range"),
+        ("char_distance", r"let\s+end\s*=\s*\(cpt\s*\+\s*offset\)\.min\(self\.mod_chars\.len\(\)\);\s*end\s*-\s*cpt", "char_distance = min(cpt + offset, mod_chars.len()) - cpt"),
+    ]:
+        need(pat, F.fn_body(mod, fn, MOD), "%s: %s" % (MOD, what))
+    m = need(r"let\s+char_len\s*=\s*self\.mod_chars\.len\(\);\s*for\s+i\s+in\s+\(char_idx\s*\+\s*(\d+)\)\.\.char_len\s*\{\s*let\s+byte_idx\s*=\s*self\.mod_c2b\[i\];\s*"
+             r"if\s+self\.can_bow\(byte_idx\)\s*\{\s*return\s+i\s*-\s*char_idx;\s*\}\s*\}\s*char_len\s*-\s*char_idx", F.fn_body(mod, "get_word_candidate_length", MOD),
+             "get_word_candidate_length body")
+    out.append("Definition wcl_first_offset : nat := %d.\n" % int(m.group(1)))
+    need(r"self\.mod_chars\.push\(ch\);\s*let\s+cat\s*=\s*cats\.get_category_types\(ch\);\s*self\.mod_cat\.push\(cat\);\s*self\.mod_c2b\.push\(bidx\);", bd,
+         "build: one entry of mod_chars / mod_cat / mod_c2b per character")
+    need(r"self\.mod_bow\.resize\(self\.modified\.len\(\),\s*false\);", bd, "build: mod_bow has one entry per byte")
+    out.append('Definition char_level_methods : list string := ["curr_slice_c"; "orig_slice_c"; "curr_slice"; "can_bow"; "cat_at_char"; "cat_of_range"; "char_distance"; "get_word_candidate_length"].\n')
+
     # ---- Morpheme accessors (core) and what the Python module exposes
     mo = F.strip_comments(F.src(MORPH))
     wiring = []
